@@ -18,6 +18,10 @@ CHECKS['C10'] = dict(engine='mirsym', category='model_checking', design='DESIGN.
    text="Bounded symbolic execution of the real MIR of PortableRegistry::retain/retain_type over symbolic well-formed registries: all 8 definition kinds, vector lengths, Option tags, every reference id and the filter predicate are solver variables (exhaustive for n<=2 entries; seeded shape templates with symbolic ids and filter for n=3,4). On every path z3 refutes each way the property can fail: result not dense/closed, map keys != reachable set (unrolled closure over the symbolic reference relation of the original), map not a bijection onto the new ids, retained entry != original with ids renamed. Recursion/step budgets turn non-termination into a natively confirmed violation.",
    note="Symbolic indices are resolved by solver-guided case splitting (each feasible value forks). Names/docs are opaque tokens. Trusted: mirsym + std models (Vec, slice IterMut, BTreeMap<u32,u32> as arrays, mem::replace, Range<u32>), validated each run against native retain on seeded concrete registries (same map, same result). Bounds in evidence.bounds.",
    technique=TECH)
+CHECKS['C16'] = dict(engine='mirsym', category='model_checking', design='DESIGN.md §6 C16',
+   text="Symbolic execution of the MIR of MetaType's PartialEq, Ord, PartialOrd, Hash, type_id, is_phantom and new over all pairs of 128-bit type ids with independent opaque function pointers; z3 refutes the negation of each law (eq <=> same id, cmp is the id order and consistent with eq, partial_cmp == Some(cmp), hash feeds the id only). Coherence: every impl TypeInfo of the crate whose Identity differs from Self is executed and must be a single forwarding call returning <Identity as TypeInfo>::type_info() unchanged; PhantomData<T>'s body must not mention T.",
+   note="TypeId modelled as an opaque 128-bit value (==, total order, hash feeds that value); injectivity of TypeId::of is rustc's guarantee. TypeInfo impls outside the crate are outside the claim (the derive always emits Identity = Self).",
+   technique=TECH)
 NA = {
 }
 m = {
